@@ -132,7 +132,9 @@ def structured(rng):
     if r == 9:
         # beyond the interpreter's recursion limit (known finding recursion-limit) and just below it
         if rng.random() < 0.5:
-            depth = rng.choice([200, 450, 600, 1200])
+            # (rendering is quadratic in the depth: ~27 s of CPU for all five renders at 450 levels, which is slow, not a hang - the depths
+            # stay clear of that region on both sides)
+            depth = rng.choice([200, 600, 1200])
             return "proto p\n" + "".join(f"message M{k} {{\n" for k in range(depth)) + "bool a = 1\n" + "}\n" * depth
         n = rng.choice([150, 300, 420, 900])
         return "proto p\ntype T0 = bool[1]\n" + "".join(f"type T{k} = T{k - 1}[1]\n" for k in range(1, n)) + f"message M {{ T{n - 1} a = 1 }}\n"
